@@ -322,6 +322,14 @@ def run(repo: Repo) -> Result:
         isinstance(n, ast.Name) and n.id in ("Awaitable", "iscoroutine", "isawaitable") or isinstance(n, ast.Attribute) and n.attr in ("iscoroutine", "isawaitable", "run")
         for n in ast.walk(sync_check.node)
     )
+    # ... and what it does then must be "stale" (`return False` -> the loader loads it again),
+    # never "fresh" and never an error
+    if sync_handles_awaitable:
+        def _aw_test(t) -> bool:
+            return isinstance(t, ast.Call) and (callee_name(t) in ("iscoroutine", "isawaitable") or (callee_name(t) == "isinstance" and len(t.args) == 2 and "Awaitable" in text(t.args[1])))
+
+        branches = [n for n in ast.walk(sync_check.node) if isinstance(n, ast.If) and _aw_test(n.test)]
+        sync_handles_awaitable = bool(branches) and all(b.body and isinstance(b.body[-1], ast.Return) and isinstance(b.body[-1].value, ast.Constant) and b.body[-1].value.value is False for b in branches)
     async_handles_sync = any(isinstance(n, ast.Name) and n.id == "Awaitable" for n in ast.walk(async_check.node))
     fresh_funcs: dict = {}
     for c in caching:
@@ -413,6 +421,8 @@ def selftest(repo: Repo):
     return [
         v("swap-key-name-async", P, *load_async_swap, "C23-KEY|liquid.builtin.loaders.mixins.CachingLoaderMixin.load_async"),
         v("sync-load-passes-key", P, "                super().load,  # type: ignore\n                env,\n                name,", "                super().load,  # type: ignore\n                env,\n                cache_key,", "C23-KEY"),
+        v("sync-check-rejects-coroutine-uptodate", T, "        if inspect.iscoroutine(uptodate):\n            # This template was loaded by an async request and we can't await its\n            # `uptodate` here. Say it's stale, so the caller loads it again.\n            uptodate.close()\n            return False\n", "", "C23-UPTODATE"),
+        v("sync-check-says-fresh-for-coroutine-uptodate", T, "            uptodate.close()\n            return False\n", "            uptodate.close()\n            return True\n", "C23-UPTODATE"),
         v("async-freshness-by-ordering", "liquid/builtin/loaders/file_system_loader.py", "            None, lambda: mtime == source_path.stat().st_mtime", "            None, lambda: source_path.stat().st_mtime <= mtime", "C23-FRESH"),
         v("sync-freshness-by-ordering", "liquid/builtin/loaders/file_system_loader.py", "        return mtime == source_path.stat().st_mtime", "        return mtime >= source_path.stat().st_mtime", "C23-FRESH"),
         v("freshness-ignores-recorded-mtime", "liquid/builtin/loaders/file_system_loader.py", "        return mtime == source_path.stat().st_mtime", "        return source_path.stat().st_mtime == source_path.stat().st_mtime", "C23-FRESH"),
